@@ -1,6 +1,1192 @@
-//! C01 — stub: correspondence harness not built yet.
+//! C01 — commit is atomic and durable across a crash at any instant.
+//!
+//! Histories (adds, deletes, commits, rollbacks, merges, explicit GC, writer restarts; 1–4
+//! indexing threads; merge policy on/off; segments cut by `tantivy::verif::set_segment_cut_docs`)
+//! run against a `VDir` that records every storage operation and the written bytes. The
+//! thread-tagged log goes to the Lean model (`Model/Storage.lean`, `Model/CommitProtocol.lean`),
+//! which (i) checks that every read/exists result is explained by the visible layer of the
+//! storage model, (ii) decides the discipline D0–D4 and returns every offending operation,
+//! (iii) enumerates crash images at chosen boundaries. Each image is materialised in a fresh
+//! `RamDirectory` and handed to the REAL `Index::open`, `validate_checksum`, a full content dump
+//! through a searcher, then `writer → add → commit → garbage_collect`.
+//!
+//! Oracle (implementation alone): open succeeds; content = exactly the documents of one commit
+//! `j` with `lastAcked ≤ j ≤ lastStarted`; all referenced files validate; the recovered index
+//! accepts a writer, a commit and GC.
+//!
+//! Lock files (`.tantivy-*.lock`) are left out of traces and images: a `RamDirectory` emulates
+//! locks by file existence whereas `MmapDirectory` uses `flock`, which does not survive a crash.
+use crate::dirs::{OpKind, OpRec, VDir};
+use crate::model::{hex, unhex};
+use crate::rng::Rng;
 use crate::Ctx;
+use serde_json::{json, Value as J};
+use std::collections::{BTreeMap, HashMap, HashSet};
+use std::panic::{catch_unwind, AssertUnwindSafe};
+use std::path::{Path, PathBuf};
+use tantivy::collector::Count;
+use tantivy::directory::RamDirectory;
+use tantivy::merge_policy::{LogMergePolicy, NoMergePolicy};
+use tantivy::query::{AllQuery, TermQuery};
+use tantivy::schema::{Field, IndexRecordOption, Schema, Value, FAST, INDEXED, STORED, TEXT};
+use tantivy::{doc, Directory, DocAddress, Index, IndexWriter, ReloadPolicy, TantivyDocument, Term};
+
+pub const K_S1A: &str = "C01:meta-rename-not-synced-before-ack";
+pub const K_S1B: &str = "C01:old-meta-survives-gc-unlinks";
+pub const META: &str = "meta.json";
+pub const MANAGED: &str = ".managed.json";
+const NEW_DOC_ID: u64 = 9_999_999;
+
+// ------------------------------------------------------------------------------------------
+// histories
+// ------------------------------------------------------------------------------------------
+
+#[derive(Clone, Debug, PartialEq)]
+pub enum Step {
+    Add(u64),
+    DelGrp(u64),
+    Commit,
+    Rollback,
+    Merge { wait: bool },
+    Gc,
+    Reopen { wait: bool },
+    /// C10 only (C02 findings F2/F3 make its content unpredictable; C01 never generates it)
+    DeleteAll,
+}
+
+#[derive(Clone, Debug)]
+pub struct Hist {
+    pub threads: usize,
+    pub merge_policy: bool,
+    pub cut_docs: u32,
+    pub steps: Vec<Step>,
+}
+
+pub fn grp_of(id: u64) -> u64 {
+    id % 5
+}
+
+impl Hist {
+    pub fn to_json(&self) -> J {
+        let steps: Vec<String> = self
+            .steps
+            .iter()
+            .map(|s| match s {
+                Step::Add(i) => format!("add:{i}"),
+                Step::DelGrp(g) => format!("delgrp:{g}"),
+                Step::Commit => "commit".into(),
+                Step::Rollback => "rollback".into(),
+                Step::Merge { wait } => format!("merge:{}", *wait as u8),
+                Step::Gc => "gc".into(),
+                Step::Reopen { wait } => format!("reopen:{}", *wait as u8),
+                Step::DeleteAll => "deleteall".into(),
+            })
+            .collect();
+        json!({"threads": self.threads, "merge_policy": self.merge_policy, "cut_docs": self.cut_docs, "steps": steps})
+    }
+    pub fn from_json(v: &J) -> Option<Hist> {
+        let mut steps = vec![];
+        for s in v["steps"].as_array()? {
+            let s = s.as_str()?;
+            let (a, b) = s.split_once(':').unwrap_or((s, ""));
+            steps.push(match a {
+                "add" => Step::Add(b.parse().ok()?),
+                "delgrp" => Step::DelGrp(b.parse().ok()?),
+                "commit" => Step::Commit,
+                "rollback" => Step::Rollback,
+                "merge" => Step::Merge { wait: b == "1" },
+                "gc" => Step::Gc,
+                "reopen" => Step::Reopen { wait: b == "1" },
+                "deleteall" => Step::DeleteAll,
+                _ => return None,
+            });
+        }
+        Some(Hist {
+            threads: v["threads"].as_u64()? as usize,
+            merge_policy: v["merge_policy"].as_bool()?,
+            cut_docs: v["cut_docs"].as_u64()? as u32,
+            steps,
+        })
+    }
+}
+
+pub fn gen_hist(rng: &mut Rng, max_steps: usize, with_delete_all: bool) -> Hist {
+    let threads = 1 + rng.usize_below(4);
+    let merge_policy = rng.chance(1, 2);
+    let cut_docs = *rng.pick(&[0u32, 1, 1, 2, 3, 5]);
+    let n = 5 + rng.usize_below(max_steps.max(6) - 5);
+    let mut steps = vec![];
+    let mut next_id = 1u64;
+    let mut commits = 0;
+    for _ in 0..n {
+        let r = rng.below(100);
+        let s = if r < 48 {
+            let k = 1 + rng.below(3);
+            for _ in 1..k {
+                steps.push(Step::Add(next_id));
+                next_id += 1;
+            }
+            let s = Step::Add(next_id);
+            next_id += 1;
+            s
+        } else if r < 58 {
+            Step::DelGrp(rng.below(5))
+        } else if r < 76 {
+            commits += 1;
+            Step::Commit
+        } else if r < 81 {
+            Step::Rollback
+        } else if r < 89 {
+            Step::Merge { wait: rng.chance(2, 3) }
+        } else if r < 94 {
+            Step::Gc
+        } else if r < 98 || !with_delete_all {
+            Step::Reopen { wait: rng.chance(1, 2) }
+        } else {
+            Step::DeleteAll
+        };
+        steps.push(s);
+    }
+    if commits < 2 {
+        steps.insert(steps.len() / 2, Step::Commit);
+    }
+    steps.push(Step::Commit);
+    // A delete must not be the first stamped operation of a fresh writer (after open, rollback,
+    // delete_all): `Stamper::new(committed_opstamp)` gives it the opstamp of the last commit and
+    // a merge of committed segments (target = that opstamp) then applies and persists the
+    // uncommitted delete — a C02/C04 defect reported separately; these generators stay clear of
+    // it so that a content difference here means storage, not that.
+    let mut fresh = true;
+    let mut out = Vec::with_capacity(steps.len() + 4);
+    for s in steps {
+        match s {
+            Step::DelGrp(_) if fresh => {
+                out.push(Step::Add(next_id));
+                next_id += 1;
+                fresh = false;
+            }
+            Step::Add(_) | Step::Commit => fresh = false,
+            Step::Rollback | Step::Reopen { .. } | Step::DeleteAll => fresh = true,
+            _ => {}
+        }
+        out.push(s);
+    }
+    Hist { threads, merge_policy, cut_docs, steps: out }
+}
+
+pub struct Fields {
+    pub id: Field,
+    pub grp: Field,
+    pub body: Field,
+}
+
+pub fn schema() -> (Schema, Fields) {
+    let mut sb = Schema::builder();
+    let id = sb.add_u64_field("id", INDEXED | STORED | FAST);
+    let grp = sb.add_u64_field("grp", INDEXED);
+    let body = sb.add_text_field("body", TEXT | STORED);
+    (sb.build(), Fields { id, grp, body })
+}
+
+pub struct RunOut {
+    pub log: Vec<OpRec>,
+    /// (log length when the call returned, opstamp returned by commit())
+    pub acks: Vec<(usize, u64)>,
+    /// commit opstamp -> sorted ids of exactly that commit (sequential replay in the harness)
+    pub expected: BTreeMap<u64, Vec<u64>>,
+    /// log length when `Index::create` had returned
+    pub base: usize,
+    pub errors: Vec<String>,
+    pub merges_ok: u64,
+    pub merges_err: u64,
+}
+
+fn new_writer(index: &Index, h: &Hist) -> tantivy::Result<IndexWriter> {
+    let w: IndexWriter = index.writer_with_num_threads(h.threads, 15_000_000 * h.threads)?;
+    if h.merge_policy {
+        let mut p = LogMergePolicy::default();
+        p.set_min_num_segments(2);
+        w.set_merge_policy(Box::new(p));
+    } else {
+        w.set_merge_policy(Box::new(NoMergePolicy));
+    }
+    Ok(w)
+}
+
+/// what the point of a history is called when `observer` is invoked
+#[derive(Clone, Copy, Debug, PartialEq)]
+pub enum Point {
+    Created,
+    CommitReturned,
+    GcReturned,
+    MergesWaited,
+    /// the writer is about to be dropped / waited for (from here on no updater thread exists)
+    WriterDropping,
+    /// a (new) writer is ready
+    WriterReady,
+    End,
+}
+
+/// run a history against `vdir`; `observer` is called at quiescent points with the live index
+pub fn run_history(
+    h: &Hist,
+    vdir: &VDir,
+    observer: &mut dyn FnMut(Point, &Index, Option<&IndexWriter>, &[u64]),
+) -> RunOut {
+    let (schema, f) = schema();
+    let mut out = RunOut {
+        log: vec![],
+        acks: vec![],
+        expected: BTreeMap::new(),
+        base: 0,
+        errors: vec![],
+        merges_ok: 0,
+        merges_err: 0,
+    };
+    tantivy::verif::set_segment_cut_docs(h.cut_docs);
+    let index = match Index::create(vdir.clone(), schema, Default::default()) {
+        Ok(i) => i,
+        Err(e) => {
+            out.errors.push(format!("Index::create: {e}"));
+            return out;
+        }
+    };
+    out.base = vdir.log_len();
+    out.expected.insert(0, vec![]);
+    observer(Point::Created, &index, None, &[]);
+    let mut committed: Vec<u64> = vec![];
+    let mut pending: Vec<Step> = vec![];
+    let mut content_predictable = true;
+    let mut writer = match new_writer(&index, h) {
+        Ok(w) => Some(w),
+        Err(e) => {
+            out.errors.push(format!("writer: {e}"));
+            None
+        }
+    };
+    for step in &h.steps {
+        let w = match writer.as_mut() {
+            Some(w) => w,
+            None => break,
+        };
+        match step {
+            Step::Add(id) => {
+                let d = doc!(f.id => *id, f.grp => grp_of(*id), f.body => format!("doc {} w{} lorem ipsum", id, id % 7));
+                if let Err(e) = w.add_document(d) {
+                    out.errors.push(format!("add_document: {e}"));
+                }
+                pending.push(step.clone());
+            }
+            Step::DelGrp(g) => {
+                w.delete_term(Term::from_field_u64(f.grp, *g));
+                pending.push(step.clone());
+            }
+            Step::DeleteAll => {
+                // C02 findings F2/F3: content and opstamps after delete_all are not predictable
+                let _ = w.delete_all_documents();
+                pending.clear();
+                committed.clear();
+                content_predictable = false;
+            }
+            Step::Commit => match w.commit() {
+                Ok(op) => {
+                    out.acks.push((vdir.log_len(), op));
+                    for p in pending.drain(..) {
+                        match p {
+                            Step::Add(id) => committed.push(id),
+                            Step::DelGrp(g) => committed.retain(|i| grp_of(*i) != g),
+                            _ => {}
+                        }
+                    }
+                    let mut ids = committed.clone();
+                    ids.sort();
+                    if let Some(prev) = out.expected.get(&op) {
+                        if *prev != ids && content_predictable {
+                            out.errors.push(format!("two commits with opstamp {op} and different content"));
+                        }
+                    }
+                    out.expected.insert(op, ids.clone());
+                    observer(Point::CommitReturned, &index, Some(w), &ids);
+                }
+                Err(e) => out.errors.push(format!("commit: {e}")),
+            },
+            Step::Rollback => {
+                pending.clear();
+                if let Err(e) = w.rollback() {
+                    out.errors.push(format!("rollback: {e}"));
+                }
+                // rollback() builds a fresh IndexWriter inside, whose merge policy is the
+                // default one again: re-apply the history's choice
+                if h.merge_policy {
+                    let mut p = LogMergePolicy::default();
+                    p.set_min_num_segments(2);
+                    w.set_merge_policy(Box::new(p));
+                } else {
+                    w.set_merge_policy(Box::new(NoMergePolicy));
+                }
+            }
+            Step::Merge { wait } => {
+                let ids = index.searchable_segment_ids().unwrap_or_default();
+                if ids.len() >= 2 {
+                    let fut = w.merge(&ids);
+                    if *wait {
+                        match fut.wait() {
+                            Ok(_) => out.merges_ok += 1,
+                            Err(_) => out.merges_err += 1,
+                        }
+                    }
+                }
+            }
+            Step::Gc => {
+                match w.garbage_collect_files().wait() {
+                    Ok(_) => {}
+                    Err(e) => out.errors.push(format!("garbage_collect_files: {e}")),
+                }
+                let mut ids = committed.clone();
+                ids.sort();
+                observer(Point::GcReturned, &index, Some(w), &ids);
+            }
+            Step::Reopen { wait } => {
+                pending.clear();
+                observer(Point::WriterDropping, &index, writer.as_ref(), &[]);
+                let old = writer.take().unwrap();
+                if *wait {
+                    if let Err(e) = old.wait_merging_threads() {
+                        out.errors.push(format!("wait_merging_threads: {e}"));
+                    }
+                    let mut ids = committed.clone();
+                    ids.sort();
+                    observer(Point::MergesWaited, &index, None, &ids);
+                } else {
+                    drop(old);
+                }
+                match new_writer(&index, h) {
+                    Ok(w) => writer = Some(w),
+                    Err(e) => out.errors.push(format!("writer (reopen): {e}")),
+                }
+                observer(Point::WriterReady, &index, writer.as_ref(), &[]);
+            }
+        }
+    }
+    if let Some(w) = writer.take() {
+        observer(Point::WriterDropping, &index, Some(&w), &[]);
+        if let Err(e) = w.wait_merging_threads() {
+            out.errors.push(format!("wait_merging_threads (end): {e}"));
+        }
+    }
+    let mut ids = committed.clone();
+    ids.sort();
+    observer(Point::End, &index, None, &ids);
+    tantivy::verif::set_segment_cut_docs(0);
+    out.log = vdir.log();
+    out
+}
+
+// ------------------------------------------------------------------------------------------
+// log -> model tokens
+// ------------------------------------------------------------------------------------------
+
+pub fn is_lock_file(p: &str) -> bool {
+    p.starts_with(".tantivy-") && p.ends_with(".lock")
+}
+
+/// the files `meta.json` bytes reference, and its opstamp, obtained with the real parser
+pub fn meta_refs(bytes: &[u8]) -> Result<(u64, Vec<String>), String> {
+    let ram = RamDirectory::create();
+    ram.atomic_write(Path::new(META), bytes).map_err(|e| e.to_string())?;
+    let index = Index::open(ram).map_err(|e| format!("meta.json does not parse: {e}"))?;
+    let metas = index.load_metas().map_err(|e| e.to_string())?;
+    let mut files = vec![];
+    for sm in &metas.segments {
+        for p in sm.list_files() {
+            let s = p.to_string_lossy().to_string();
+            if s.ends_with(".del") && sm.delete_opstamp().is_none() {
+                continue;
+            }
+            files.push(s);
+        }
+    }
+    files.sort();
+    Ok((metas.opstamp, files))
+}
+
+pub struct Trace {
+    pub toks: Vec<String>,
+    /// log index a token came from (acks: None)
+    pub src: Vec<Option<usize>>,
+    pub names: Vec<String>,
+    pub intern: HashMap<String, usize>,
+    /// all bytes ever appended to a regular path, in order
+    pub streams: HashMap<usize, Vec<u8>>,
+    /// token count when Index::create had returned
+    pub base_tok: usize,
+    pub skipped_failed: u64,
+}
+
+impl Trace {
+    fn id(&mut self, name: &str) -> usize {
+        if let Some(i) = self.intern.get(name) {
+            return *i;
+        }
+        let i = self.names.len();
+        self.names.push(name.to_string());
+        self.intern.insert(name.to_string(), i);
+        i
+    }
+    pub fn line(&self) -> String {
+        self.toks.join(" ")
+    }
+}
+
+pub fn tokenize(run: &RunOut) -> Result<Trace, String> {
+    let mut t = Trace {
+        toks: vec![],
+        src: vec![],
+        names: vec![],
+        intern: HashMap::new(),
+        streams: HashMap::new(),
+        base_tok: 0,
+        skipped_failed: 0,
+    };
+    t.id(META);
+    t.id(MANAGED);
+    let mut acks = run.acks.iter().peekable();
+    for (i, r) in run.log.iter().enumerate() {
+        while let Some((pos, op)) = acks.peek() {
+            if *pos <= i {
+                t.toks.push(format!("k{op}"));
+                t.src.push(None);
+                acks.next();
+            } else {
+                break;
+            }
+        }
+        if i == run.base {
+            t.base_tok = t.toks.len();
+        }
+        if is_lock_file(&r.path) {
+            continue;
+        }
+        let tok = match r.kind {
+            OpKind::SyncDir => {
+                if !r.ok {
+                    t.skipped_failed += 1;
+                    continue;
+                }
+                "s".to_string()
+            }
+            _ => {
+                let p = t.id(&r.path);
+                match r.kind {
+                    OpKind::OpenRead => format!("r{p}:{}", if r.ok { r.len.to_string() } else { "x".into() }),
+                    OpKind::AtomicRead => format!("g{p}:{}", if r.ok { r.len.to_string() } else { "x".into() }),
+                    OpKind::Exists => {
+                        if !r.ok {
+                            continue;
+                        }
+                        format!("e{p}:{}", r.len)
+                    }
+                    _ if !r.ok => {
+                        t.skipped_failed += 1;
+                        continue;
+                    }
+                    OpKind::OpenWrite => format!("c{p}"),
+                    OpKind::Write => {
+                        let data = r.data.as_ref().ok_or("log recorded without data")?;
+                        t.streams.entry(p).or_default().extend_from_slice(data);
+                        format!("w{p}:{}", r.len)
+                    }
+                    OpKind::Flush => format!("f{p}"),
+                    OpKind::Terminate => format!("t{p}"),
+                    OpKind::Delete => format!("d{p}"),
+                    OpKind::AtomicWrite => {
+                        let data = r.data.as_ref().ok_or("log recorded without data")?;
+                        if r.path == META {
+                            let (opstamp, files) = meta_refs(data)?;
+                            let refs: Vec<String> = files.iter().map(|f| t.id(f).to_string()).collect();
+                            format!("a{p}:{opstamp}:{i}:{}:{}", data.len(), if refs.is_empty() { "-".into() } else { refs.join(".") })
+                        } else {
+                            format!("a{p}:0:{i}:{}:-", data.len())
+                        }
+                    }
+                    OpKind::SyncDir => unreachable!(),
+                }
+            }
+        };
+        t.toks.push(tok);
+        t.src.push(Some(i));
+    }
+    for (_, op) in acks {
+        t.toks.push(format!("k{op}"));
+        t.src.push(None);
+    }
+    if run.base >= run.log.len() {
+        t.base_tok = t.toks.len();
+    }
+    Ok(t)
+}
+
+fn is_state_change(tok: &str) -> bool {
+    !matches!(tok.as_bytes()[0], b'r' | b'g' | b'e')
+}
+
+// ------------------------------------------------------------------------------------------
+// crash images
+// ------------------------------------------------------------------------------------------
+
+#[derive(Clone, Debug)]
+pub struct ImageDesc {
+    pub kind: u32,
+    pub subject: usize,
+    pub arg: u64,
+    pub model_rec: Option<u64>,
+    pub allowed: bool,
+    /// (path id, length, sealed)
+    pub files: Vec<(usize, usize, bool)>,
+    /// (path id, log index of the atomic_write)
+    pub atoms: Vec<(usize, usize)>,
+}
+
+pub struct Boundary {
+    pub k: usize,
+    pub acked: u64,
+    pub started: u64,
+    pub images: Vec<ImageDesc>,
+}
+
+pub fn parse_images(resp: &str) -> Result<Vec<Boundary>, String> {
+    let mut out = vec![];
+    if resp == "-" {
+        return Ok(out);
+    }
+    if resp == "bad-op" {
+        return Err("model rejected the trace (bad-op)".into());
+    }
+    for sec in resp.split('#') {
+        let mut it = sec.splitn(4, '|');
+        let k: usize = it.next().and_then(|s| s.parse().ok()).ok_or("k")?;
+        let acked: u64 = it.next().and_then(|s| s.parse().ok()).ok_or("acked")?;
+        let started: u64 = it.next().and_then(|s| s.parse().ok()).ok_or("started")?;
+        let rest = it.next().ok_or("images")?;
+        let mut images = vec![];
+        for im in rest.split(';') {
+            let parts: Vec<&str> = im.split('|').collect();
+            if parts.len() != 5 {
+                return Err(format!("image record {im:?}"));
+            }
+            let h: Vec<u64> = parts[0].split(':').map(|x| x.parse().map_err(|_| "image header".to_string())).collect::<Result<_, _>>()?;
+            if h.len() != 3 {
+                return Err("image header".into());
+            }
+            let mut files = vec![];
+            if parts[3] != "-" {
+                for f in parts[3].split(',') {
+                    let x: Vec<usize> = f.split(':').map(|x| x.parse().map_err(|_| "file".to_string())).collect::<Result<_, _>>()?;
+                    if x.len() != 3 {
+                        return Err("file entry".into());
+                    }
+                    files.push((x[0], x[1], x[2] == 1));
+                }
+            }
+            let mut atoms = vec![];
+            if parts[4] != "-" {
+                for f in parts[4].split(',') {
+                    let x: Vec<usize> = f.split(':').map(|x| x.parse().map_err(|_| "atom".to_string())).collect::<Result<_, _>>()?;
+                    if x.len() != 2 {
+                        return Err("atom entry".into());
+                    }
+                    atoms.push((x[0], x[1]));
+                }
+            }
+            images.push(ImageDesc {
+                kind: h[0] as u32,
+                subject: h[1] as usize,
+                arg: h[2],
+                model_rec: parts[1].parse().ok(),
+                allowed: parts[2] == "1",
+                files,
+                atoms,
+            });
+        }
+        out.push(Boundary { k, acked, started, images });
+    }
+    Ok(out)
+}
+
+pub type Files = BTreeMap<String, Vec<u8>>;
+
+pub fn materialize(d: &ImageDesc, t: &Trace, log: &[OpRec]) -> Files {
+    let mut m = Files::new();
+    for (p, n, _) in &d.files {
+        let s = t.streams.get(p).map(|v| v.as_slice()).unwrap_or(&[]);
+        m.insert(t.names[*p].clone(), s[..(*n).min(s.len())].to_vec());
+    }
+    for (p, ver) in &d.atoms {
+        m.insert(t.names[*p].clone(), log[*ver].data.clone().unwrap_or_default());
+    }
+    m
+}
+
+#[derive(Clone, Debug, PartialEq)]
+pub struct Fail {
+    pub kind: &'static str,
+    pub detail: String,
+    pub missing: Vec<String>,
+}
+
+#[derive(Clone, Debug)]
+pub struct Outcome {
+    pub opstamp: Option<u64>,
+    pub fail: Option<Fail>,
+}
+
+fn fail(kind: &'static str, detail: String) -> Outcome {
+    Outcome { opstamp: None, fail: Some(Fail { kind, detail, missing: vec![] }) }
+}
+
+pub fn dump_ids(index: &Index, f: &Fields) -> Result<Vec<u64>, String> {
+    let reader = index.reader_builder().reload_policy(ReloadPolicy::Manual).try_into().map_err(|e: tantivy::TantivyError| format!("reader: {e}"))?;
+    let searcher = reader.searcher();
+    let mut ids = vec![];
+    for (ord, sr) in searcher.segment_readers().iter().enumerate() {
+        let col = sr.fast_fields().u64("id").map_err(|e| format!("fast field: {e}"))?;
+        for d in sr.doc_ids_alive() {
+            let stored: TantivyDocument = searcher.doc(DocAddress::new(ord as u32, d)).map_err(|e| format!("doc store: {e}"))?;
+            let sid = stored.get_first(f.id).and_then(|v| v.as_u64()).ok_or("stored id missing")?;
+            let fid = col.first(d).ok_or("fast id missing")?;
+            if sid != fid {
+                return Err(format!("stored id {sid} != fast id {fid}"));
+            }
+            ids.push(sid);
+        }
+    }
+    ids.sort();
+    let n = searcher.search(&AllQuery, &Count).map_err(|e| format!("search: {e}"))?;
+    if n != ids.len() {
+        return Err(format!("AllQuery count {n} != {} alive docs", ids.len()));
+    }
+    if let Some(first) = ids.first() {
+        let q = TermQuery::new(Term::from_field_u64(f.id, *first), IndexRecordOption::Basic);
+        let c = searcher.search(&q, &Count).map_err(|e| format!("term search: {e}"))?;
+        if c != ids.iter().filter(|i| *i == first).count() {
+            return Err(format!("term query for id {first} finds {c}"));
+        }
+    }
+    Ok(ids)
+}
+
+/// the property's oracle on one durable image, evaluated with the real code only
+pub fn eval_image(files: &Files, acked: u64, started: u64, expected: &BTreeMap<u64, Vec<u64>>) -> Outcome {
+    let res = catch_unwind(AssertUnwindSafe(|| -> Outcome {
+        let (_, f) = schema();
+        let ram = RamDirectory::create();
+        for (name, bytes) in files {
+            if ram.atomic_write(Path::new(name), bytes).is_err() {
+                return fail("harness", "cannot build image".into());
+            }
+        }
+        let index = match Index::open(ram.clone()) {
+            Ok(i) => i,
+            Err(e) => return fail("open-failed", format!("{e}")),
+        };
+        let metas = match index.load_metas() {
+            Ok(m) => m,
+            Err(e) => return fail("open-failed", format!("load_metas: {e}")),
+        };
+        let j = metas.opstamp;
+        let done = |kind: &'static str, detail: String, missing: Vec<String>| Outcome { opstamp: Some(j), fail: Some(Fail { kind, detail, missing }) };
+        // every referenced file is present and validates
+        let mut missing = vec![];
+        let mut bad = vec![];
+        for sm in &metas.segments {
+            for p in sm.list_files() {
+                let s = p.to_string_lossy().to_string();
+                if s.ends_with(".del") && sm.delete_opstamp().is_none() {
+                    continue;
+                }
+                match index.directory().validate_checksum(&p) {
+                    Ok(true) => {}
+                    Ok(false) => bad.push(s),
+                    Err(tantivy::directory::error::OpenReadError::FileDoesNotExist(_)) => missing.push(s),
+                    Err(_) => bad.push(s),
+                }
+            }
+        }
+        if !missing.is_empty() {
+            missing.sort();
+            return done("missing-file", format!("meta.json (opstamp {j}) references files that do not exist: {missing:?}"), missing);
+        }
+        if !bad.is_empty() {
+            return done("checksum", format!("referenced files fail validation: {bad:?}"), vec![]);
+        }
+        match index.validate_checksum() {
+            Ok(s) if s.is_empty() => {}
+            Ok(s) => return done("checksum", format!("Index::validate_checksum reports {s:?}"), vec![]),
+            Err(e) => return done("checksum", format!("Index::validate_checksum: {e}"), vec![]),
+        }
+        let ids = match dump_ids(&index, &f) {
+            Ok(i) => i,
+            Err(e) => return done("search-failed", e, vec![]),
+        };
+        if j < acked {
+            return done("older-than-acked", format!("recovered commit {j} although commit {acked} had been acknowledged ({} docs)", ids.len()), vec![]);
+        }
+        if j > started {
+            return done("newer-than-started", format!("recovered commit {j} > last started {started}"), vec![]);
+        }
+        match expected.get(&j) {
+            None => return done("unknown-commit", format!("recovered opstamp {j} is not a commit of the history"), vec![]),
+            Some(exp) if *exp != ids => return done("content-mismatch", format!("commit {j}: expected ids {exp:?}, found {ids:?}"), vec![]),
+            _ => {}
+        }
+        // the recovered index accepts a writer, a commit and GC
+        let mut w: IndexWriter = match index.writer_with_num_threads(1, 15_000_000) {
+            Ok(w) => w,
+            Err(e) => return done("continue-failed", format!("writer: {e}"), vec![]),
+        };
+        w.set_merge_policy(Box::new(NoMergePolicy));
+        if let Err(e) = w.add_document(doc!(f.id => NEW_DOC_ID, f.grp => 0u64, f.body => "after recovery")) {
+            return done("continue-failed", format!("add: {e}"), vec![]);
+        }
+        if let Err(e) = w.commit() {
+            return done("continue-failed", format!("commit: {e}"), vec![]);
+        }
+        if let Err(e) = w.garbage_collect_files().wait() {
+            return done("continue-failed", format!("gc: {e}"), vec![]);
+        }
+        drop(w);
+        let mut exp = ids.clone();
+        exp.push(NEW_DOC_ID);
+        exp.sort();
+        let reopened = match Index::open(ram.clone()) {
+            Ok(i) => i,
+            Err(e) => return done("continue-failed", format!("re-open after commit: {e}"), vec![]),
+        };
+        match dump_ids(&reopened, &f) {
+            Ok(now) if now == exp => {}
+            Ok(now) => return done("continue-failed", format!("after add+commit+gc: expected {exp:?}, found {now:?}"), vec![]),
+            Err(e) => return done("continue-failed", format!("after add+commit+gc: {e}"), vec![]),
+        }
+        Outcome { opstamp: Some(j), fail: None }
+    }));
+    match res {
+        Ok(o) => o,
+        Err(_) => fail("panic", "tantivy panicked on the recovered image".into()),
+    }
+}
+
+fn files_json(files: &Files) -> J {
+    J::Object(files.iter().map(|(k, v)| (k.clone(), J::String(hex(v)))).collect())
+}
+
+fn files_from_json(v: &J) -> Option<Files> {
+    let mut m = Files::new();
+    for (k, x) in v.as_object()? {
+        m.insert(k.clone(), unhex(x.as_str()?)?);
+    }
+    Some(m)
+}
+
+fn expected_json(e: &BTreeMap<u64, Vec<u64>>) -> J {
+    J::Object(e.iter().map(|(k, v)| (k.to_string(), json!(v))).collect())
+}
+
+fn expected_from_json(v: &J) -> Option<BTreeMap<u64, Vec<u64>>> {
+    let mut m = BTreeMap::new();
+    for (k, x) in v.as_object()? {
+        m.insert(k.parse().ok()?, x.as_array()?.iter().filter_map(|i| i.as_u64()).collect());
+    }
+    Some(m)
+}
+
+/// judge one image. `visible_meta` = bytes of the newest meta.json written before the crash
+/// point; `visible_files` = names visible in the live directory at the crash point.
+/// Attribution (DESIGN §4.4): a failure belongs to finding S1 iff the image shows an older
+/// `meta.json` than the visible one AND the same image with only `meta.json` replaced by the
+/// visible version (hypothesis D3 enforced: the rename was synced) passes every oracle.
+pub fn judge_image(
+    ctx: &mut Ctx,
+    files: &Files,
+    acked: u64,
+    started: u64,
+    expected: &BTreeMap<u64, Vec<u64>>,
+    visible_meta: &[u8],
+    visible_files: &HashSet<String>,
+    sole_meta_lost: bool,
+    desc: &str,
+    model_rec: Option<Option<u64>>,
+    hist: &J,
+) -> Outcome {
+    let out = eval_image(files, acked, started, expected);
+    let case = || {
+        json!({"kind": "image", "files": files_json(files), "acked": acked, "started": started,
+               "expected": expected_json(expected), "visible_meta": hex(visible_meta),
+               "visible_files": visible_files.iter().cloned().collect::<Vec<_>>(),
+               "sole_meta_lost": sole_meta_lost, "image": desc, "history": hist})
+    };
+    if let Some(mr) = model_rec {
+        // correspondence: the model's `recover` on the image descriptor vs the real code
+        match (mr, &out) {
+            (Some(j), o) if o.opstamp == Some(j) && !matches!(o.fail.as_ref().map(|f| f.kind), Some("missing-file" | "checksum" | "search-failed" | "open-failed" | "panic")) => {
+                ctx.report.count("model-recover:agree");
+            }
+            (Some(j), o) => {
+                ctx.report.violation("model", "C01:model-recover-mismatch", format!("model recovers commit {j}, real code: opstamp {:?} fail {:?} ({desc})", o.opstamp, o.fail), case());
+            }
+            (None, o) if o.fail.is_some() => ctx.report.count("model-recover:agree-unrecoverable"),
+            (None, _) => ctx.report.count("model-recover:model-conservative"),
+        }
+    }
+    if let Some(f) = &out.fail {
+        let meta_in_image = files.get(META).map(|v| v.as_slice());
+        let mut key = format!("C01:crash-image:{}", f.kind);
+        if meta_in_image.is_some() && meta_in_image != Some(visible_meta) && f.kind != "harness" {
+            let mut repaired = files.clone();
+            repaired.insert(META.to_string(), visible_meta.to_vec());
+            let out2 = eval_image(&repaired, acked, started, expected);
+            if out2.fail.is_none() {
+                let unlinked_missing = !f.missing.is_empty() && f.missing.iter().all(|m| !visible_files.contains(m));
+                if f.kind == "older-than-acked" {
+                    key = K_S1A.to_string();
+                } else if f.kind == "missing-file" && unlinked_missing {
+                    key = K_S1B.to_string();
+                }
+                ctx.report.count(&format!("attributed:{}:{}", if key == K_S1A { "S1a" } else if key == K_S1B { "S1b" } else { "none" }, if sole_meta_lost { "sole-lost-item" } else { "several-lost-explained-by-rename" }));
+            }
+        }
+        ctx.report.violation("oracle", &key, format!("{} [{desc}; acked {acked}, started {started}]", f.detail), case());
+    }
+    out
+}
+
+fn replay(ctx: &mut Ctx, case: &J) {
+    match case["kind"].as_str().unwrap_or("") {
+        "image" => {
+            let files = files_from_json(&case["files"]).expect("files");
+            let expected = expected_from_json(&case["expected"]).expect("expected");
+            let vis: HashSet<String> = case["visible_files"].as_array().map(|a| a.iter().filter_map(|s| s.as_str().map(String::from)).collect()).unwrap_or_default();
+            let vm = unhex(case["visible_meta"].as_str().unwrap_or("-")).unwrap_or_default();
+            ctx.report.case("replay", true);
+            let o = judge_image(ctx, &files, case["acked"].as_u64().unwrap_or(0), case["started"].as_u64().unwrap_or(0), &expected, &vm,
+                &vis, case["sole_meta_lost"].as_bool().unwrap_or(false), case["image"].as_str().unwrap_or("replay"), None, &case["history"]);
+            ctx.report.notes.push(format!("replay: opstamp {:?} fail {:?}", o.opstamp, o.fail));
+        }
+        "history" => {
+            if let Some(h) = Hist::from_json(&case["history"]) {
+                check_history(ctx, &h, usize::MAX, usize::MAX);
+            }
+        }
+        k => ctx.report.notes.push(format!("replay kind {k:?} unknown")),
+    }
+}
+
+pub fn kind_name(k: u32) -> &'static str {
+    match k {
+        0 => "all-applied",
+        1 => "all-unsynced-lost",
+        2 => "create-lost",
+        3 => "unlink-not-applied",
+        4 => "rename-lost",
+        5 => "only-create-applied",
+        6 => "only-unlink-applied",
+        7 => "only-rename-applied",
+        8 => "truncated",
+        _ => "?",
+    }
+}
+
+/// run one history, send its log to the model, evaluate crash images at up to `max_boundaries`
+/// boundaries (all of them when `usize::MAX`)
+fn check_history(ctx: &mut Ctx, h: &Hist, max_boundaries: usize, max_images: usize) {
+    let hist_json = h.to_json();
+    let vdir = VDir::new();
+    vdir.with_state(|s| s.record_data = true);
+    let run = match catch_unwind(AssertUnwindSafe(|| run_history(h, &vdir, &mut |_, _, _, _| {}))) {
+        Ok(r) => r,
+        Err(_) => {
+            ctx.report.violation("oracle", "C01:history-panic", "tantivy panicked while running the history".into(), json!({"kind":"history","history":hist_json}));
+            return;
+        }
+    };
+    for e in &run.errors {
+        ctx.report.violation("oracle", "C01:history-op-failed", e.clone(), json!({"kind":"history","history":hist_json}));
+    }
+    ctx.report.count_n("merges:ok", run.merges_ok);
+    ctx.report.count_n("merges:refused", run.merges_err);
+    ctx.report.count(&format!("threads:{}", h.threads));
+    ctx.report.count(&format!("merge-policy:{}", h.merge_policy));
+    ctx.report.count(&format!("cut-docs:{}", h.cut_docs));
+    let trace = match tokenize(&run) {
+        Ok(t) => t,
+        Err(e) => {
+            ctx.report.violation("model", "C01:trace-not-representable", e, json!({"kind":"history","history":hist_json}));
+            return;
+        }
+    };
+    ctx.report.count_n("log-ops", run.log.len() as u64);
+    ctx.report.count_n("log-ops:skipped-failed", trace.skipped_failed);
+    let threads: HashSet<&str> = run.log.iter().map(|r| r.thread.as_str()).collect();
+    for t in threads {
+        let t = t.trim_end_matches(|c: char| c.is_ascii_digit());
+        ctx.report.count(&format!("thread-kind:{t}"));
+    }
+    let line = trace.line();
+    // (i) explained, (ii) discipline
+    let resp = ctx.model.ask(&format!("C01 check {line}"));
+    let mut viol: Vec<(usize, Vec<u32>)> = vec![];
+    let mut explained = false;
+    for part in resp.split(' ') {
+        if let Some(v) = part.strip_prefix("explained=") {
+            if v == "ok" {
+                explained = true;
+            } else {
+                let i: usize = v.parse().unwrap_or(0);
+                let op = trace.src.get(i).copied().flatten().map(|s| run.log[s].line()).unwrap_or_default();
+                // VDir logs an operation before it executes it: a read that races with another
+                // thread's mutation of the same path can land on either side of it in the log
+                let racy = trace.src.get(i).copied().flatten().map(|s| {
+                    let me = &run.log[s];
+                    let lo = s.saturating_sub(12);
+                    let hi = (s + 12).min(run.log.len() - 1);
+                    (lo..=hi).any(|j| j != s && run.log[j].path == me.path && run.log[j].thread != me.thread && run.log[j].kind.is_mutation())
+                }).unwrap_or(false);
+                if racy {
+                    ctx.report.count("explained:racy-observation-not-judged");
+                    continue;
+                }
+                ctx.report.violation("model", "C01:log-not-explained", format!("token {i} ({}) [{op}] is not what the storage model's visible layer predicts", trace.toks.get(i).cloned().unwrap_or_default()), json!({"kind":"history","history":hist_json}));
+            }
+        } else if let Some(v) = part.strip_prefix("viol=") {
+            if v != "-" {
+                for e in v.split(',') {
+                    if let Some((i, rs)) = e.split_once(':') {
+                        viol.push((i.parse().unwrap_or(0), rs.split('+').filter_map(|r| r.parse().ok()).collect()));
+                    }
+                }
+            }
+        }
+    }
+    if resp == "bad-op" {
+        ctx.report.violation("model", "C01:trace-not-representable", "model rejected the trace".into(), json!({"kind":"history","history":hist_json}));
+        return;
+    }
+    if explained {
+        ctx.report.traces_validated_against_impl += 1;
+    }
+    for (_, rs) in &viol {
+        for r in rs {
+            ctx.report.count(&format!("discipline-violated:D{}", match r { 30 => "3a".into(), 31 => "3b".into(), x => x.to_string() }));
+        }
+    }
+    // (iii) boundaries
+    let mut all: Vec<usize> = (trace.base_tok + 1..=trace.toks.len()).filter(|k| is_state_change(&trace.toks[k - 1])).collect();
+    let must: Vec<usize> = viol.iter().map(|(i, _)| i + 1).filter(|k| *k > trace.base_tok).collect();
+    // evaluation order: after violating ops, meta.json writes, acks, deletes, syncs first (shuffled,
+    // interleaved), then the other boundaries in random order; cut by `max_boundaries`
+    let mut rng = ctx.rng.fork();
+    let mut pri: Vec<usize> = all.iter().copied().filter(|k| {
+        let t = &trace.toks[k - 1];
+        t.starts_with("a0:") || t.starts_with('k') || t.starts_with('d') || (t == "s")
+    }).collect();
+    rng.shuffle(&mut pri);
+    let mut m = must.clone();
+    rng.shuffle(&mut m);
+    rng.shuffle(&mut all);
+    let mut chosen: Vec<usize> = vec![];
+    let mut inq: HashSet<usize> = HashSet::new();
+    let (mut im, mut ip, mut ia) = (0, 0, 0);
+    while chosen.len() < max_boundaries && (im < m.len() || ip < pri.len() || ia < all.len()) {
+        for (v, i) in [(&m, &mut im), (&pri, &mut ip), (&all, &mut ia)] {
+            while *i < v.len() && inq.contains(&v[*i]) {
+                *i += 1;
+            }
+            if *i < v.len() && chosen.len() < max_boundaries {
+                inq.insert(v[*i]);
+                chosen.push(v[*i]);
+                *i += 1;
+            }
+        }
+    }
+    let must_chosen: HashSet<usize> = must.iter().copied().filter(|k| chosen.contains(k)).collect();
+    let ks: Vec<String> = chosen.iter().map(|k| k.to_string()).collect();
+    if ks.is_empty() {
+        return;
+    }
+    let resp = ctx.model.ask(&format!("C01 images {} {line}", ks.join(",")));
+    let bounds = match parse_images(&resp) {
+        Ok(b) => b,
+        Err(e) => {
+            ctx.report.violation("model", "C01:model-images-unparsable", e, json!({"kind":"history","history":hist_json}));
+            return;
+        }
+    };
+    let mut seen: HashMap<u64, bool> = HashMap::new();
+    let mut witnessed: HashSet<usize> = HashSet::new();
+    let mut complete: HashSet<usize> = HashSet::new();
+    let mut images_done = 0usize;
+    let by_k: HashMap<usize, &Boundary> = bounds.iter().map(|b| (b.k, b)).collect();
+    for k in &chosen {
+        let b = match by_k.get(k) {
+            Some(b) => *b,
+            None => continue,
+        };
+        if images_done >= max_images {
+            ctx.report.count("boundaries:not-evaluated-image-budget");
+            continue;
+        }
+        ctx.report.count("boundaries");
+        let applied = match b.images.iter().find(|d| d.kind == 0) {
+            Some(a) => a.clone(),
+            None => continue,
+        };
+        let visible_meta: Vec<u8> = applied.atoms.iter().find(|(p, _)| *p == 0).and_then(|(_, v)| run.log[*v].data.clone()).unwrap_or_default();
+        let visible_files: HashSet<String> = applied.files.iter().map(|(p, _, _)| trace.names[*p].clone()).collect();
+        let op_before = trace.src[b.k - 1].map(|s| run.log[s].line()).unwrap_or_else(|| trace.toks[b.k - 1].clone());
+        for d in &b.images {
+            if !d.allowed {
+                ctx.report.violation("model", "C01:model-image-not-allowed", format!("enumerated image {}:{} at boundary {} is not allowed by the fault model", d.kind, d.subject, b.k), json!({"kind":"history","history":hist_json}));
+                continue;
+            }
+            let files = materialize(d, &trace, &run.log);
+            let mut canon = format!("{}|{}|", b.acked, b.started);
+            for (n, v) in &files {
+                canon.push_str(&format!("{n}:{}:{:x};", v.len(), crate::report::fnv(v)));
+            }
+            let hsh = crate::report::fnv(canon.as_bytes());
+            if let Some(failed) = seen.get(&hsh) {
+                ctx.report.count("images:duplicate-skipped");
+                if *failed {
+                    witnessed.insert(b.k);
+                }
+                continue;
+            }
+            // differs from "all applied" only in meta.json?
+            let sole_meta_lost = d.files == applied.files && d.atoms.iter().zip(applied.atoms.iter()).all(|(x, y)| x == y || x.0 == 0) && d.atoms.len() == applied.atoms.len() && d.atoms != applied.atoms;
+            let nontrivial = d.kind != 0 && files.len() > 2;
+            ctx.report.case(&canon, nontrivial);
+            ctx.report.count(&format!("image-kind:{}", kind_name(d.kind)));
+            let desc = format!("{}{} after op #{} [{}] of thread-tagged log", kind_name(d.kind),
+                if d.kind >= 2 { format!(" {}{}", trace.names.get(d.subject).cloned().unwrap_or_default(), if d.kind == 8 { format!(" to {} bytes", d.arg) } else if d.kind == 4 || d.kind == 7 { format!(" (version {})", d.arg) } else { String::new() }) } else { String::new() },
+                b.k - 1, op_before);
+            images_done += 1;
+            let out = judge_image(ctx, &files, b.acked, b.started, &run.expected, &visible_meta, &visible_files, sole_meta_lost, &desc, Some(d.model_rec), &hist_json);
+            seen.insert(hsh, out.fail.is_some());
+            match &out.fail {
+                Some(f) => {
+                    ctx.report.count(&format!("image-outcome:fail:{}", f.kind));
+                    witnessed.insert(b.k);
+                }
+                None => ctx.report.count("image-outcome:ok"),
+            }
+            if ctx.report.samples.len() < 4 && d.kind != 0 && (ctx.report.samples.len() < 2 || out.fail.is_some()) {
+                ctx.report.sample(json!({"history": hist_json, "image": desc, "files": files.iter().map(|(n, v)| format!("{n} ({} bytes)", v.len())).collect::<Vec<_>>(),
+                    "acked": b.acked, "started": b.started, "recovered_opstamp": out.opstamp, "failure": out.fail.as_ref().map(|f| f.detail.clone())}));
+            }
+        }
+        complete.insert(b.k);
+    }
+    // a discipline violation must be witnessed: the model names the operation whose protection is
+    // missing, and one of the images right after it (the un-synced item lost / applied) has to
+    // make the real code fail. A violated rule without such a witness means model and code
+    // disagree about what the rule protects.
+    for (i, rs) in &viol {
+        let k = i + 1;
+        if must_chosen.contains(&k) && complete.contains(&k) && !witnessed.contains(&k) {
+            let names: Vec<String> = rs.iter().map(|r| match r { 30 => "D3a".to_string(), 31 => "D3b".to_string(), x => format!("D{x}") }).collect();
+            let op = trace.src.get(*i).copied().flatten().map(|s| run.log[s].line()).unwrap_or_else(|| trace.toks[*i].clone());
+            ctx.report.violation("model", &format!("C01:discipline-{}-violated-no-witness", names.join("+")), format!("op #{i} [{op}] breaks {names:?} but every crash image right after it is recovered correctly by the real code"), json!({"kind":"history","history":hist_json}));
+        } else if must_chosen.contains(&k) && witnessed.contains(&k) {
+            ctx.report.count("discipline-violation:witnessed-by-failing-image");
+        }
+    }
+}
 
 pub fn run(ctx: &mut Ctx) {
-    ctx.report.notes.push("C01: harness not built yet".into());
+    ctx.report.rule = "cases = distinct (durable image, lastAcked, lastStarted) triples opened by the real code; \
+        non-trivial = the image differs from the live directory (at least one un-synced item lost, kept or truncated) \
+        and holds at least one file besides meta.json/.managed.json".into();
+    ctx.report.correspondence_obligations = vec![
+        "every open_read/exists/atomic_read result of the real log = visible layer of the storage model".into(),
+        "real log satisfies the decidable discipline D0,D1,D2,D4 (D3a/D3b: finding S1) — every offending op is returned".into(),
+        "model recover(image descriptor) = commit the real Index::open recovers from the materialised image".into(),
+        "every enumerated image is allowed by the fault model (run-time self check of the enumerator)".into(),
+        "every operation the model reports as breaking a rule is witnessed by a crash image right after it that the real code fails on".into(),
+        "file names: extracted META/MANAGED/lock names and component suffixes = names the real code uses".into(),
+        "oracle: open succeeds, content = one commit j in [lastAcked,lastStarted], files validate, writer+commit+GC work".into(),
+    ];
+    if let Some(case) = ctx.replay.clone() {
+        replay(ctx, &case);
+        return;
+    }
+    if catch_unwind(AssertUnwindSafe(|| check_names(ctx))).is_err() {
+        ctx.report.violation("oracle", "C01:basic-index-operation-failed", "create / add / commit / delete on a RamDirectory failed or panicked".into(), json!({"kind":"names"}));
+    }
+    // corpus: the S1 scenarios, every boundary
+    let corpus = [
+        Hist { threads: 1, merge_policy: false, cut_docs: 0, steps: vec![Step::Add(1), Step::Add(2), Step::Commit, Step::Add(3), Step::Commit] },
+        Hist { threads: 1, merge_policy: false, cut_docs: 0, steps: vec![Step::Add(1), Step::Add(5), Step::Add(6), Step::Commit, Step::DelGrp(1), Step::Commit, Step::DelGrp(0), Step::Add(7), Step::Commit] },
+        Hist { threads: 1, merge_policy: false, cut_docs: 1, steps: vec![Step::Add(1), Step::Add(2), Step::Commit, Step::Merge { wait: true }, Step::Add(3), Step::Commit] },
+    ];
+    let thorough = ctx.thorough();
+    for h in &corpus {
+        check_history(ctx, h, usize::MAX, if thorough { usize::MAX } else { 220 });
+    }
+    let n = ctx.budget(14, 60);
+    let per_images = if thorough { 800 } else { 130 };
+    let max_steps = if thorough { 60 } else { 22 };
+    for _ in 0..n {
+        let mut rng = ctx.rng.fork();
+        let h = gen_hist(&mut rng, max_steps, false);
+        check_history(ctx, &h, if thorough { 600 } else { 120 }, per_images);
+    }
+}
+
+/// the extracted names are the ones the real code uses
+fn check_names(ctx: &mut Ctx) {
+    let resp = ctx.model.ask("C01 names");
+    let parts: Vec<&str> = resp.split(';').collect();
+    let name = |i: usize| -> String { parts.get(i).and_then(|h| unhex(h)).map(|b| String::from_utf8_lossy(&b).to_string()).unwrap_or_default() };
+    let mut problems = vec![];
+    if name(0) != META {
+        problems.push(format!("meta name {:?}", name(0)));
+    }
+    if name(1) != MANAGED {
+        problems.push(format!("managed name {:?}", name(1)));
+    }
+    if name(2) != tantivy::directory::INDEX_WRITER_LOCK.filepath.to_string_lossy() || name(3) != tantivy::directory::META_LOCK.filepath.to_string_lossy() {
+        problems.push("lock names".into());
+    }
+    let blocking = parts.get(13).copied().unwrap_or("");
+    if blocking != format!("{}{}", tantivy::directory::INDEX_WRITER_LOCK.is_blocking as u8, tantivy::directory::META_LOCK.is_blocking as u8) {
+        problems.push(format!("lock blocking flags {blocking}"));
+    }
+    // a real index: meta.json / .managed.json exist under the extracted names; component files
+    let (schema, f) = schema();
+    let ram = RamDirectory::create();
+    let index = Index::create(ram.clone(), schema, Default::default()).unwrap();
+    let mut w: IndexWriter = index.writer_with_num_threads(1, 15_000_000).unwrap();
+    w.add_document(doc!(f.id => 1u64, f.grp => 1u64, f.body => "x")).unwrap();
+    w.commit().unwrap();
+    w.delete_term(Term::from_field_u64(f.id, 1));
+    w.add_document(doc!(f.id => 2u64, f.grp => 1u64, f.body => "y")).unwrap();
+    w.commit().unwrap();
+    drop(w);
+    if !ram.exists(Path::new(&name(0))).unwrap_or(false) || !ram.exists(Path::new(&name(1))).unwrap_or(false) {
+        problems.push("meta.json / .managed.json not found under the extracted names".into());
+    }
+    let del_suffix = name(4);
+    let suffixes: Vec<String> = (5..12).map(name).collect();
+    let temp_idx: usize = parts.get(12).and_then(|s| s.parse().ok()).unwrap_or(99);
+    for sm in index.searchable_segment_metas().unwrap() {
+        let uuid = sm.id().uuid_string();
+        let mut model: HashSet<PathBuf> = suffixes.iter().enumerate().filter(|(i, _)| *i != temp_idx).map(|(_, s)| PathBuf::from(format!("{uuid}{s}"))).collect();
+        model.insert(PathBuf::from(format!("{uuid}.{}{del_suffix}", sm.delete_opstamp().unwrap_or(0))));
+        if model != sm.list_files() {
+            problems.push(format!("list_files of {uuid}: real {:?} vs extracted {:?}", sm.list_files(), model));
+        }
+    }
+    ctx.report.case("names", true);
+    if !problems.is_empty() {
+        ctx.report.violation("model", "C01:file-names-differ", problems.join("; "), json!({"kind":"names"}));
+    }
 }
